@@ -171,6 +171,23 @@ def check_bifurcation(case):
         if hi is not None:
             break
     if hi is None:
+        # the cycle band is narrow (~0.1 K) and sits where convergence gives way to rejection: bisect that transition and take the
+        # first non-convergent point met on the way
+        for k in range(len(grid) - 1):
+            if not is_raised(res[k][0]) and is_raised(res[k + 1][0]):
+                a, b = grid[k], grid[k + 1]
+                for _ in range(12):
+                    mid = 0.5 * (a + b)
+                    o, t = run(mid)
+                    if cyc(o):
+                        hi, tr_hi, lo = mid, t, a
+                        break
+                    if is_raised(o):
+                        b = mid
+                    else:
+                        a = mid
+                break
+    if hi is None:
         raise Discard("no non-convergent point with a convergent neighbour on the permeate-temperature grid")
     for _ in range(14):
         mid = 0.5 * (lo + hi)
@@ -194,6 +211,15 @@ def check_bifurcation(case):
         prec = min(max(amp / ratio, 1e-8), 5e-3)
         run(hi, prec)
         n += 1
+    # the models with a finite number of steps, started ON the cycle (the first step already does not converge)
+    prec = min(max(amp / 30.0, 1e-8), 5e-4)
+    cond = {"area": 1.0, "T": case["T"], "amount": 1.0, "x": case["x"], "basis": case["basis"], "Tp": hi, "pp": None}
+    comp = lambda: build.composition(case["x"], case["basis"])
+    for what, fn in (
+            ("ideal_isothermal_process", lambda: pv.ideal_isothermal_process(3, 1e-3, build.conditions(cond), prec, case["model"])),
+            ("ideal_non_isothermal_process", lambda: pv.ideal_non_isothermal_process(build.conditions(cond), 3, 1e-3, prec, case["model"])),
+            ("ideal_diffusion_curve", lambda: pv.ideal_diffusion_curve(case["T"], [comp()], hi, None, prec, case["model"]))):
+        run_capped(fn, pv, "%s started on a 2-cycle (permeate temperature %r, precision %r)" % (what, hi, prec), case, nsolve=3)
     return {"nontrivial": True, "classes": [case["model"], "amplitude<1e-3" if amp < 1e-3 else "amplitude>=1e-3"], "target": {"amplitude": amp}}
 
 
@@ -249,8 +275,8 @@ PARTS = [
          floor={"quick": 300, "thorough": 10000}, corpus=_corpus(), shrink={"quick": False, "thorough": True}),
     Part("models", lambda tier: model_strategy(), check_model, {"quick": 1200, "thorough": 30000},
          floor={"quick": 60, "thorough": 1500}, shrink={"quick": False, "thorough": True}),
-    Part("period-doubling-boundary", bifurcation_strategy, check_bifurcation, {"quick": 1200, "thorough": 30000},
-         floor={"quick": 6, "thorough": 150}, shrink={"quick": False, "thorough": False}, max_discard=0.995),
+    Part("period-doubling-boundary", bifurcation_strategy, check_bifurcation, {"quick": 320, "thorough": 8000},
+         floor={"quick": 30, "thorough": 750}, shrink={"quick": False, "thorough": False}, max_discard=0.9),
     Part("pressure-resonance", lambda tier: resonance_strategy(), check_resonance, {"quick": 640, "thorough": 20000},
          floor={"quick": 60, "thorough": 2000}, shrink={"quick": False, "thorough": False}),
     Part("non-ideal-models", lambda tier: __import__("pvverif.procs", fromlist=["x"]).process_case(
